@@ -88,7 +88,7 @@ CHECKS = {'C09': {'category': 'proof',
                       'by the verified checker',
          'text': 'msqueue_linearizable, C06_moir_linearizable, C06_rwqueue_linearizable, C06_optimistic_linearizable (Herlihy-Wing with pending operations; no invention, no duplication, empty means '
                  "empty at an instant inside the call) hold for any number of threads; each real queue is replayed against its machine. FCQueue without elimination: C06_fcqueue_linearizable (C10's "
-                 "generic theorem); its elimination pass: fixed-batch theorems tied by the differential run. BasketQueue has no machine: its histories (and everybody's) are judged against Spec.fifo "
+                 "generic theorem); its elimination pass: fixed-batch theorems tied by the differential run. BasketQueue: machine proved linearizable to the unordered pool (C06_basket_pool_linearizable: conservation, no duplication, empty means empty) with every linearization point a fifo transition or an insertion of the list-order queue (C06_basket_lp_refines), replayed against the real queue; FIFO order among overlapping basket enqueues is not a theorem (C06_basket_linearizable_partial). All histories are also judged against Spec.fifo "
                  'on explored schedules, including CAS-biased 4-thread runs and a sequential drain at the end of every history.',
          'note': 'SC interleavings only (threads serialised by a baton at every atomic operation); memory orders not modelled; explored schedules only for the history/oracle/trace ties; Lean kernel '
                  '+ propext/Classical.choice/Quot.sound. Garbage-collected heap in the machines (no node reuse: what C01/C02 provide); weak CAS never fails spuriously.'},
@@ -225,7 +225,7 @@ CHECKS = {'C09': {'category': 'proof',
          'technique': 'Lean 4: sequential corollaries of the proved machines (Props/C20Seq: a single-threaded complete run of each of 14 machines and of every flat-combining container returns exactly the '
                       'results of the sequential specification; generic lemma: a sequential history is linearizable iff it is the run of the specification), tied by replaying single-threaded traces of the real '
                       'code; single-threaded operation sequences on every variant of every client judged against the strict Lean reference specifications by the verified checker; spec laws of update()',
-         'text': 'About 190 container variants x 2500 sequences per quick run; return values and payloads observed through functors are compared with Spec.map/fifo/bfifo/lifo/deque/maxpq. '
+         'text': 'Props/C20Seq: C20_<name>_sequential for the Treiber, elimination, MSQueue, Moir, RWQueue, Optimistic, Vyukov, Michael, Lazy, SplitList, Feldman, SkipList, Striped and Refinable machines and for every flat-combining container (a single-threaded complete run returns exactly the results of the sequential specification), each tied by replaying single-threaded traces of the real code. About 190 container variants x 2500 sequences per quick run; return values and payloads observed through functors are compared with Spec.map/fifo/bfifo/lifo/deque/maxpq. '
                  'size/empty/clear, functor call counts and disposer counts are only partly covered (named in the evidence).'},
  'C21': {'category': 'proof',
          'technique': 'Lean 4: atomic-step machines of FreeList (reference-counted) and TaggedFreeList (tagged double-width CAS) with node reuse, proved for all schedules (no double hand-out, '
